@@ -123,14 +123,14 @@ func RunCoreInProcess(o *CoreOpts, quiet bool) error {
 	os.Args = append([]string{"o2-aliecs-core"}, o.Args()...)
 	if quiet {
 		logrus.SetOutput(os.Stderr)
-		logrus.SetLevel(logrus.PanicLevel)
+		logrus.SetLevel(logrus.FatalLevel)
 	}
 	if err := core.NewConfig(); err != nil {
 		return fmt.Errorf("core.NewConfig: %w", err)
 	}
 	viper.Set("verifPluginEndpoint", "inproc")
 	if quiet {
-		logrus.SetLevel(logrus.PanicLevel)
+		logrus.SetLevel(logrus.FatalLevel)
 	}
 	errCh := make(chan error, 1)
 	go func() { errCh <- core.Run() }()
